@@ -32,7 +32,10 @@ JOINS = ["none", "outer", "left outer", "right outer"]
 
 def shards(tier):
     q = tier == "quick"
-    return [{"name": f"ws{i}", "examples": 240 if q else 4000} for i in range(14 if q else 16)]
+    out = [{"name": f"ws{i}", "examples": 240 if q else 4000} for i in range(14)]
+    if not q:
+        out += [{"name": f"fuzz{i}", "kind": "fuzz", "runs": 1500} for i in range(2)]
+    return out
 
 
 @st.composite
